@@ -102,6 +102,15 @@ func verifC19RoundTrip() {
 	parsed, _ := url.Parse(u.raw)
 	req := &http.Request{Method: "GET", URL: parsed, Header: http.Header{}}
 	req = req.WithContext(context.Background())
+	hostHdr := "" // optional Host header override naming another origin
+	if vBool() {
+		hostHdr = "front.example"
+		req.Host = hostHdr
+	}
+	wantAuthority := u.host
+	if hostHdr != "" {
+		wantAuthority = hostHdr
+	}
 	origURL := *parsed
 	resp, err := t.RoundTrip(req)
 	vReach("roundtrip")
@@ -127,7 +136,7 @@ func verifC19RoundTrip() {
 			}
 		}
 	}
-	vAssert(*req.URL == origURL && req.Host == "", "the caller's request is not modified")
+	vAssert(*req.URL == origURL && req.Host == hostHdr, "the caller's request is not modified")
 	if wantH3 {
 		vAssert(h3.called, "HTTP/3 chosen when the most preferred usable record offers h3")
 		vAssert(err == nil && resp.Request == req, "the response is bound to the caller's request")
@@ -142,7 +151,7 @@ func verifC19RoundTrip() {
 			}
 			vAssert(ok, "only records offering h3 are handed to the HTTP/3 dialer")
 		}
-		vAssert(h3.req.Host == u.host, "the original authority is sent")
+		vAssert(h3.req.Host == wantAuthority, "the original authority (or the caller's Host override) is sent")
 		vAssert(h3.req.URL.Scheme == "https", "scheme upgraded when HTTPS records exist")
 		vReach("h3")
 		return
